@@ -274,3 +274,58 @@ def add_zst_error(prog, rng):
         m.owner = host
         host.methods.append(m)
     return True
+
+
+SPECIAL_NAMES = ["cmp", "compare_to", "ordering", "plus", "add", "combine", "minus", "times", "over", "at", "get", "lookup", "items", "iter", "digits",
+                 "walk", "next", "advance", "text", "to_string", "describe", "build", "create", "of", "from_parts", "size", "count", "set_size", "put_count"]
+
+
+def add_special_methods(prog, rng, backend):
+    """Methods carrying the special-method attributes a backend declares support for (comparison, arithmetic and *_assign, indexer, iterable +
+    iterator, stringifier, constructor / named constructor, getter / setter), under varying *names*, on existing lifetime-free opaques and on a
+    fresh iterator type. Tool-level checks only. Returns the number of methods added."""
+    sup = profiles.support(backend)
+    hosts = [t for t in prog.types() if t.kind == "opaque" and not t.lifetimes]
+    if not hosts:
+        return 0
+    used = lambda t: {m.name for m in t.methods}
+    n = 0
+
+    def add(host, attr, name, self_kind, params, ret, lifetimes=None):
+        nonlocal n
+        nm = name
+        while nm in used(host):
+            nm += "_x"
+        m = spec.Method(nm, self_kind, params, ret, lifetimes=lifetimes)
+        m.attrs.append("#[diplomat::attr(auto, %s)]" % attr)
+        m.owner = host
+        host.methods.append(m)
+        n += 1
+    host = rng.choice(hosts)
+    me = ("oref", host.name, False, None, False)
+    pick = lambda: rng.choice(SPECIAL_NAMES)
+    if sup["comparators"] and rng.random() < 0.7:
+        add(host, "comparison", pick(), ("ref", None), [("other", me)], ("ordering",))
+    if sup["arithmetic"]:
+        for op in rng.sample(["add", "sub", "mul", "div"], rng.randint(0, 3)):
+            add(host, op, pick(), ("ref", None), [("o", me)], ("obox", host.name, False))
+        for op in rng.sample(["add_assign", "sub_assign", "mul_assign", "div_assign"], rng.randint(0, 2)):
+            add(host, op, pick(), ("mut", None), [("o", me)], ("unit",))
+    if sup["indexing"] and rng.random() < 0.6:
+        add(host, "indexer", pick(), ("ref", None), [("i", ("prim", "usize"))], ("opt", ("prim", rng.choice(["u8", "f64", "i32"])), "std") if sup["option"] else ("prim", "u8"))
+    if sup["iterators"] and sup["iterables"] and sup["option"] and rng.random() < 0.7:
+        it = spec.Opaque("VfIter%s" % host.name)
+        mod = [m for m in prog.modules if host in m.items][0]
+        mod.items.append(it)
+        add(it, "iterator", pick(), ("mut", None), [], ("opt", ("prim", rng.choice(["u8", "u32", "i16"])), "std"))
+        add(host, "iterable", pick(), ("ref", None), [], ("obox", it.name, False))
+    if sup["stringifiers"] and rng.random() < 0.6:
+        add(host, "stringifier", pick(), ("ref", None), [("w", ("write",))], ("unit",))
+    if sup["named_constructors"] and rng.random() < 0.5:
+        add(host, "named_constructor", pick(), None, [("v", ("prim", "u32"))], ("obox", host.name, False))
+    if sup["accessors"] and rng.random() < 0.6:
+        g = "prop_" + pick()          # never the name of a sibling method: that collision is probed separately (C15 F33)
+        add(host, "getter = \"%s\"" % g, "fetch_" + g, ("ref", None), [], ("prim", "u32"))
+        if rng.random() < 0.5:
+            add(host, "setter = \"%s\"" % g, "store_" + g, ("mut", None), [("v", ("prim", "u32"))], ("unit",))
+    return n
